@@ -33,6 +33,7 @@ type CaseC19 struct {
 	Calls []int     // operation indices, dealt round-robin to the goroutines
 	G     int
 	Storm int `json:",omitempty"` // sweep only: number of distinct cheap calls racing one slow call of the same function
+	Fan   int `json:",omitempty"` // wide fan-out: this many goroutines run the same long-running calls at once
 }
 
 // shared arguments of a workload (read-only for the library)
@@ -283,6 +284,9 @@ func genC19(t *rapid.T) *CaseC19 {
 	for i := 0; i < n; i++ {
 		c.Calls = append(c.Calls, rapid.IntRange(0, len(c19Ops)-1).Draw(t, "op"))
 	}
+	if rapid.IntRange(0, 79).Draw(t, "fan?") == 0 {
+		c.Fan = rapid.IntRange(24, 200).Draw(t, "fan")
+	}
 	return c
 }
 
@@ -295,6 +299,12 @@ func classifyC19(c *CaseC19) (bool, []string) {
 	nt := c.G >= 2 && len(kinds) >= 2
 	if len(kinds) >= 10 {
 		cl = append(cl, ">=10-operation-kinds")
+	}
+	if c.Fan > 0 {
+		cl = append(cl, "wide-fan-out")
+	}
+	if c.Fan >= 100 {
+		cl = append(cl, "fan-out>=100-goroutines")
 	}
 	return nt, cl
 }
@@ -453,6 +463,9 @@ func checkC19(c *CaseC19, fl *Fails) {
 	if c.Storm > 0 {
 		c19Storm(c, fl)
 	}
+	if c.Fan > 0 {
+		c19Fan(c, w, fl)
+	}
 	if raceLogSize() > before {
 		fl.Add("data-race", "race detector report during the workload: %s", raceLogTail())
 	}
@@ -539,6 +552,93 @@ func c19Storm(c *CaseC19, fl *Fails) {
 	}
 }
 
+// c19Fan: "any number of goroutines" - far more goroutines than cores run the same long-running calls at once, so
+// that hundreds of calls are in flight (preempted mid-call) at the same moment; first every goroutine runs the same
+// operation, then each starts at a different one. Every result must equal the result of the call run alone.
+func c19Fan(c *CaseC19, w *c19World, fl *Fails) {
+	const fz = 20
+	p0 := c.Pts[0]
+	wl, hl, ra := localSizes(p0, fz, fz)
+	far := clampPt(Pt{F64(p0.Lon.V() + 300.3*wl), F64(p0.Lat.V() - 180.7*hl), F64(p0.Alt.V() + 60.2*ra)}).obj()
+	near := p0.obj()
+	if far == nil || near == nil {
+		return
+	}
+	b0 := c.Boxes[0]
+	var kids []string
+	for i := int64(0); i < 512; i++ {
+		kids = append(kids, ref.Box{H: b0.H + 3, X: b0.X*8 + i%8, Y: b0.Y*8 + (i/8)%8, V: b0.V + 3, F: b0.F*8 + i/64}.Ext())
+	}
+	heavy := []c19Op{
+		{"shape.GetExtendedSpatialIdsOnLine(long)", func(*c19World) string { return cs(shape.GetExtendedSpatialIdsOnLine(near, far, fz, fz)) }},
+		{"shape.GetSpatialIdsOnLine(long)", func(*c19World) string { return cs(shape.GetSpatialIdsOnLine(far, near, fz-1)) }},
+		{"integrate.ChangeExtendedSpatialIdsZoom(2k)", func(w *c19World) string {
+			return cs(integrate.ChangeExtendedSpatialIdsZoom(w.ext[:1], b0.H+4, b0.V+3))
+		}},
+		{"integrate.MergeExtendedSpatialIds(512)", func(*c19World) string { return cs(integrate.MergeExtendedSpatialIds(kids, b0.H, b0.V)) }},
+		{"operated.GetNspatialIdsAroundVoxcels(3,3)", func(w *c19World) string { return cs(operated.GetNspatialIdsAroundVoxcels(w.ext, 3, 3)) }},
+		{"transform.GetExtendedSpatialIdsWithinRadiusOfLine", func(w *c19World) string {
+			return cs(transform.GetExtendedSpatialIdsWithinRadiusOfLine(w.cpts[0], w.cpts[1], w.radius, w.ch, w.ch, false))
+		}},
+		{"detector.CheckSpatialIdsArrayOverlap(512)", func(*c19World) string {
+			var sp []string
+			for i := int64(0); i < 512; i++ {
+				sp = append(sp, ref.Box{H: 12, X: 100 + i%32, Y: 200 + i/32, V: 12, F: -3}.Spatial())
+			}
+			r, e := detector.CheckSpatialIdsArrayOverlap(sp, []string{ref.Box{H: 14, X: 4*131 + 1, Y: 4*215 + 2, V: 14, F: -9}.Spatial()})
+			return fmt.Sprint(r, errStr(e))
+		}},
+	}
+	want := make([]string, len(heavy))
+	for i, op := range heavy {
+		t0 := time.Now()
+		want[i] = op.f(w)
+		if os.Getenv("VERIF_C19_TIMING") != "" {
+			Count("fan_us_"+op.name, time.Since(t0).Microseconds())
+		}
+	}
+	var mu sync.Mutex
+	var bad string
+	run := func(pick func(g, step int) int, steps int) {
+		var wg sync.WaitGroup
+		start := make(chan struct{})
+		for g := 0; g < c.Fan; g++ {
+			wg.Add(1)
+			go func(g int) {
+				defer wg.Done()
+				<-start
+				for s := 0; s < steps; s++ {
+					k := pick(g, s)
+					if got := heavy[k].f(w); got != want[k] {
+						mu.Lock()
+						if bad == "" {
+							bad = fmt.Sprintf("%s returned a different result with %d goroutines in flight: %.200s / alone: %.200s", heavy[k].name, c.Fan, got, want[k])
+						}
+						mu.Unlock()
+					}
+				}
+			}(g)
+		}
+		close(start)
+		wg.Wait()
+	}
+	for k := range heavy { // all goroutines in the same function
+		k := k
+		run(func(int, int) int { return k }, 1)
+	}
+	run(func(g, s int) int { return (g + s) % len(heavy) }, 3) // mixed
+	Count("c19_fan_calls", int64(c.Fan*(len(heavy)+3)))
+	if bad != "" {
+		fl.Add("fan-result-differs", "%s", bad)
+	}
+	for k, op := range heavy {
+		if got := op.f(w); got != want[k] {
+			fl.Add("fan-result-differs-after", "%s returns a different result after the fan-out: %.200s / before: %.200s", op.name, got, want[k])
+			break
+		}
+	}
+}
+
 func init() {
 	register(PropT[CaseC19]{
 		ID:   "C19",
@@ -549,16 +649,24 @@ func init() {
 		},
 		Gen: genC19, Check: checkC19, Classify: classifyC19,
 		Sweep: func(tier string, emit func(*CaseC19)) {
+			fan := []int{160, 384}
+			if tier != "quick" {
+				fan = []int{64, 100, 160, 256, 384, 640, 1000, 2000}
+			}
+			for i, n := range fan {
+				emit(&CaseC19{Boxes: []ref.Box{{H: 6, X: 13 + int64(i), Y: 27, V: 6, F: -2}, {H: 6, X: 14 + int64(i), Y: 27, V: 6, F: -2}}, Pts: []Pt{{F64(139.767125 - float64(i)), F64(35.681236 + float64(i)), F64(10)}, {F64(139.7672), F64(35.6813), F64(12)}}, H: 6, V: 6, Calls: []int{4, 9}, G: 2, Fan: n})
+			}
 			if tier == "quick" {
 				return
 			}
 			emit(&CaseC19{Boxes: []ref.Box{{H: 5, X: 3, Y: 3, V: 5, F: -1}}, Pts: []Pt{{F64(139.767125), F64(35.681236), F64(10)}, {F64(139.7672), F64(35.6813), F64(12)}}, H: 5, V: 5, Calls: []int{0, 9, 14}, G: 2, Storm: 9000})
 		},
 		SweepScopes: func(tier string) []string {
+			fanScope := "wide fan-out: 160 and 384 (thorough: 64..2000) goroutines run seven long-running calls (540-voxel lines, 2k-ID zoom change, 512-ID merge, 7x7x7 neighbourhoods, corridor, 512-entry overlap) first all in the same function, then mixed; every result compared with the call run alone, during and after"
 			if tier == "quick" {
-				return nil
+				return []string{fanScope}
 			}
-			return []string{"one storm: a slow clearance fit racing >= 9000 distinct cheap clearance fits on 8 goroutines (they continue until the slow call is done), then all of them again alone, most recent first (translation-invariance oracle)"}
+			return []string{fanScope, "one storm: a slow clearance fit racing >= 9000 distinct cheap clearance fits on 8 goroutines (they continue until the slow call is done), then all of them again alone, most recent first (translation-invariance oracle)"}
 		},
 		ReplayRuns: 8,
 	})
